@@ -117,7 +117,9 @@ fn gen_content(rng: &mut Rng, hist: &mut Report) -> Vec<u8> {
     let head = *rng.pick(&heads);
     let tail = *rng.pick(&tails);
     let long: String = (0..40).map(|i| format!("// licence line {i}\n")).collect();
-    let kind = rng.below(15);
+    let kind = rng.below(17);
+    // a directive that straddles a multiple of 8 KiB (readers that work in blocks)
+    let boundary_pad = |rng: &mut Rng| -> String { let k = 1 + rng.below(2); let j = 1 + rng.below(15); format!("/*{}*/", "x".repeat(8192 * k - j - 4)) };
     let (name, body): (&str, String) = match kind {
         0 | 1 => ("plain", format!("{head}fn plain() {{}}{tail}")),
         2 => ("static_top", format!("// {STATIC}\n{head}{tail}")),
@@ -132,7 +134,9 @@ fn gen_content(rng: &mut Rng, hist: &mut Report) -> Vec<u8> {
         11 => ("static_deep", format!("{long}{head}// {STATIC}\n{tail}")),
         12 => ("after_deep", format!("{long}{head}// {AFTER}\n{tail}")),
         13 => ("static_after_code", format!("{head}fn a() {{}}\n{long}/* {STATIC} */")),
-        _ => ("empty", String::new()),
+        14 => ("empty", String::new()),
+        15 => { let pad = boundary_pad(rng); ("static_at_block_boundary", format!("{pad}{STATIC}\n{tail}")) }
+        _ => { let pad = boundary_pad(rng); ("after_at_block_boundary", format!("{pad}{AFTER}\n{tail}")) }
     };
     let mut bytes = body.into_bytes();
     // occasionally make the file invalid UTF-8
